@@ -230,7 +230,7 @@ func newShardOwner(s ShardInfo, ownerFreqs map[int]int) (uint64, error) {
 	)
 
 	for id, freq := range ownerFreqs {
-		if minId == -1 || freq < minFreq {
+		if minId == -1 || freq < minFreq || (freq == minFreq && id < minId) {
 			minId, minFreq = int(id), freq
 		}
 	}
